@@ -149,7 +149,7 @@ def explore(inst, seed, tier):
         consts["SampleMod"] = inst["sample_mod"]
         consts["SampleRes"] = seed % inst["sample_mod"]
     err = None
-    for nprimes in (inst.get("nprimes", 8), 14, 20):
+    for nprimes in (inst.get("nprimes", 8), 14, 22, 36):
         try:
             behs, stats = tlcrun.run_model(inst["module"], cfg_text, nprimes=nprimes,
                                            timeout=inst.get("timeout", 1200 if tier == "quick" else 7200), simulate=sim,
